@@ -4,7 +4,7 @@
 P=$1; shift
 cd /repo || exit 2
 if [ -n "$(git status --porcelain --untracked-files=no)" ]; then echo "/repo is not clean"; exit 2; fi
-git apply "$P" || { echo "patch does not apply"; exit 2; }
+git apply "$P" 2>/dev/null || git apply -C1 --recount "$P" || { echo "patch does not apply"; exit 2; }
 trap 'git -C /repo checkout -- . ' EXIT
 cd /verif
 for p in "$@"; do
